@@ -125,7 +125,7 @@ class BaseSamples:
             dtype = convert_dtype(self.dtype, xp)
         else:
             dtype = resolve_dtype(dtype, xp)
-        logger.debug("Converting samples to {} namespace", xp)
+        logger.debug(f"Converting samples to {xp} namespace")
         return self.__class__(
             x=self.x,
             parameters=self.parameters,
